@@ -278,8 +278,9 @@ Proof. unfold replace_ref. destruct (str_eqb v ch_na || is_empty v); eauto. Qed.
 Definition s_cat_square : str := [123; 99; 125; 44; 32; 83]%N.            (* "{c}, S" *)
 Definition s_c : str := [99]%N.
 
-(* the code as it is: an empty replacement (n/a or unknown categorical cell) is
-   substituted literally and leaves the comma behind: "{c}, S" -> ", S" *)
+(* record of the defect repaired by fix commit a455136 (fixed = false = behaviour before it):
+   an empty replacement (n/a or unknown categorical cell) was substituted literally and left
+   the comma behind: "{c}, S" -> ", S" *)
 Theorem na_is_removed_refuted :
   exists text ref v r, skipped v = true /\ replace_ref false text ref v = Ok r /\
                        wf_delim text = true /\ wf_delim r = false.
@@ -301,7 +302,8 @@ Theorem digits_ref_refuted :
   replace_ref true s_red_1_blue s_1 ch_na = Ok [82; 44; 32; 66]%N.
 Proof. repeat split; vm_compute; reflexivity. Qed.
 
-(* an empty cell of a value column is not skipped by the code as it is *)
+(* record of the defect repaired by fix commit a2f08b3 (fixed = false = behaviour before it):
+   an empty cell of a value column was not skipped *)
 Theorem empty_value_cell_refuted :
   exists tmpl, keep_part (value_handler false tmpl []) = true.
 Proof. exists [76; 47; 35]%N. reflexivity. Qed.
@@ -313,8 +315,8 @@ Proof.
   destruct (str_eqb x ch_na); simpl in *; [reflexivity|]. rewrite H. reflexivity.
 Qed.
 
-(* n/a or empty cells never contribute a part, whatever the column kind, in the
-   repaired model; categorical and HED columns already behave so in the code as it is *)
+(* n/a or empty cells never contribute a part, whatever the column kind (fixed = true, the
+   code as it is since a2f08b3; categorical and HED columns behaved so before as well) *)
 Theorem skipped_cell_contributes_nothing (f : xform) (x : str) :
   skipped x = true ->
   (forall kv, f = XCat kv -> assoc x kv = None) ->
@@ -411,7 +413,8 @@ Theorem splice_tree_fixed_bounded (w : str) :
   splice_premise true w = true -> splice_concl true w = true.
 Proof. exact (splice_upto_sound true 7 splice_upto_7_fixed w). Qed.
 
-(* without the two extra hypotheses the statement is false of the code as it is *)
+(* record of the defects repaired by fix commits 2ad4134 and a8ad4f5: without the two extra
+   hypotheses the statement was false of the behaviour before them (fixed = false) *)
 Definition w_blank_ref : str := [32; 123; 44; 97]%N.          (* " {r},a"  -> ",a" *)
 Definition w_twice : str := [40; 123; 44; 123; 41]%N.         (* "({r},{r})" -> "()" *)
 Theorem splice_well_delimited_refuted :
